@@ -5,7 +5,7 @@
 From Coq Require Import List NArith ZArith Bool Ascii String.
 From Authlib Require Import Base.Bytes Base.Base64 Base.BigEndian Base.PyVal Base.Url Base.Percent Base.Utf8 Base.Form.
 From Authlib Require Proofs.UrlP.
-From Authlib Require Import Model.JWK Model.Claims Spec.ClaimsSpec Model.Resource Model.Scope Model.ClientAuth Model.Metadata Spec.MetadataSpec Model.Registration Model.Wire.
+From Authlib Require Import Model.JWK Model.Claims Spec.ClaimsSpec Model.Resource Model.Scope Model.ClientAuth Model.Metadata Spec.MetadataSpec Model.Registration Model.Wire Model.OAuth1Sig.
 Import ListNotations.
 Open Scope string_scope.
 
@@ -243,6 +243,25 @@ Definition dispatch_wire (fn : string) (a : pv) : option pv :=
   else if String.eqb fn "comp_wf" then Some (PBool (Proofs.UrlP.comp_wf (urlparse (pv_str a))))
   else None.
 
+Definition o_hmac_sha1 (k m : string) : string := pv_str (oracle "hmac_sha1" (PList [PStr k; PStr m])).
+
+Definition dispatch_oauth1sig (fn : string) (a : pv) : option pv :=
+  if String.eqb fn "o1_escape" then Some (PStr (escape (pv_str a)))
+  else if String.eqb fn "o1_unescape" then Some (PStr (unescape (pv_str a)))
+  else if String.eqb fn "o1_normalize_uri" then Some (pv_of_ostr (normalize_base_string_uri (arg_s "uri" a) (arg_opt_s "host" a)))
+  else if String.eqb fn "o1_normalize_parameters" then Some (PStr (normalize_parameters (pairs_of_pv a)))
+  else if String.eqb fn "o1_base_string" then
+    Some (pv_of_ostr (construct_base_string (arg_s "method" a) (arg_s "uri" a) (pairs_of_pv (arg "params" a)) (arg_opt_s "host" a)))
+  else if String.eqb fn "o1_hmac_signature" then
+    Some (PStr (hmac_sha1_signature o_hmac_sha1 (arg_s "base" a) (arg_s "client_secret" a) (arg_s "token_secret" a)))
+  else if String.eqb fn "o1_plaintext_signature" then
+    Some (PStr (plaintext_signature (arg_s "client_secret" a) (arg_s "token_secret" a)))
+  else if String.eqb fn "o1_render_header" then
+    Some (PStr (render_header (pairs_of_pv (arg "oauth_params" a)) (arg_opt_s "realm" a)))
+  else if String.eqb fn "o1_render_body" then
+    Some (PStr (render_body (pairs_of_pv (arg "oauth_params" a)) (pairs_of_pv (arg "body_params" a))))
+  else None.
+
 Definition dispatch (fn : string) (a : pv) : pv :=
   if String.eqb fn "oracle_echo" then oracle "echo" a else
   match dispatch_jwk fn a with
@@ -271,6 +290,9 @@ Definition dispatch (fn : string) (a : pv) : pv :=
   | None =>
   match dispatch_wire fn a with
   | Some r => r
+  | None =>
+  match dispatch_oauth1sig fn a with
+  | Some r => r
   | None => err ("unknown function " ++ fn)
-  end end end end end end end end end.
+  end end end end end end end end end end.
 End D.
